@@ -188,6 +188,12 @@ def find_act(prog, name):
     return None
 
 
+@st.composite
+def crowd_cases(draw):
+    return {'crowd': {'n': draw(st.integers(1100, 1700)), 'per_step': draw(st.sampled_from([50, 200, 2000])),
+                      'how': draw(st.sampled_from(['return', 'fail', 'cancel']))}}
+
+
 class C06(Check):
     pid = 'C06'
     level = 'fault_enumeration'
@@ -198,7 +204,8 @@ class C06(Check):
             'plus Task.cancel(token) injected before activation k (quick: 1-6 sampled k per program, '
             'thorough: every k in 0..N for every target, also pairs with two tokens). '
             'non-trivial = the task was not already finished when cancel() was called (created or '
-            'suspended); distinct by sha1(program + effective fault point).')
+            'suspended); distinct by sha1(program + effective fault point). Also crowds: 1100-1700 awaiters of one task that returns, fails '
+            'or is cancelled.')
     budgets = {'quick': dict(examples=2400, procs=4), 'thorough': dict(examples=12000, procs=16)}
     level_text = ('Every generated program is re-run with Task.cancel() injected at activation boundaries '
                   '(all boundaries x all targets in the thorough tier); invariants over the history: status '
@@ -213,10 +220,77 @@ class C06(Check):
     assumptions = ('helpers (lock holder, producer, resource holder) are never cancelled so all waits end',)
 
     def strategy(self, tier):
-        return programs(tier)
+        return st.integers(0, 149).flatmap(lambda k, tier=tier: crowd_cases() if k == 0 else programs(tier))
+
+    def crowd_case(self, case):
+        """more than a thousand activities await one task (`await task` / `await task.done`), started over many time steps;
+        when it ends - returns, fails, is cancelled - every one of them learns its outcome in that time step"""
+        import usim
+        from vlib.probe import run_probed
+        out = Outcome()
+        out.evals = 1
+        spec = case['crowd']
+        n, how = spec['n'], spec['how']
+        seen = {}
+
+        async def subject():
+            await (usim.time + 40)
+            if how == 'fail':
+                raise KeyError('subject')
+            return 1138
+
+        async def awaiter(i, task, done_only):
+            try:
+                if done_only:
+                    await task.done
+                    seen[i] = ('done', usim.time.now)
+                else:
+                    seen[i] = ('value', await task, usim.time.now)
+            except usim.TaskCancelled as e:
+                seen[i] = ('cancelled', e.subject is task, usim.time.now)
+            except KeyError:
+                seen[i] = ('failed', usim.time.now)
+
+        holder = {}
+
+        async def host():
+            # the subject lives in a scope of its own (its failure ends that scope, not the awaiters')
+            try:
+                async with usim.Scope() as scope:
+                    holder['task'] = scope.do(subject())
+            except usim.Concurrent:
+                pass
+
+        async def main():
+            async with usim.Scope() as top:
+                top.do(host())
+                await usim.instant
+                task = holder['task']
+                for i in range(n):
+                    top.do(awaiter(i, task, i % 3 == 0))
+                    if i % spec['per_step'] == spec['per_step'] - 1:
+                        await (usim.time + 0.25)
+                if how == 'cancel':
+                    await (usim.time >= 20)
+                    task.cancel('enough')
+        end = 20 if how == 'cancel' else 40
+        oc, exc, _ = run_probed([main()], till=200, probe=Probe(b_step=40 * n + 1000, b_total=400 * n))
+        if oc != 'ok':
+            out.fail('run_outcome', 'crowd:%s:%s' % (oc, type(exc).__name__), 'run() ended with %s %r' % (oc, exc))
+            return out
+        want = {'return': ('value', 1138, end), 'fail': ('failed', end), 'cancel': ('cancelled', True, end)}[how]
+        bad = [i for i in range(n) if seen.get(i) != (('done', end) if i % 3 == 0 else want)]
+        if bad:
+            out.fail('awaiters', 'crowd:awaiter_not_served', '%d of %d awaiters did not learn the outcome (%s) at %r, e.g. #%d: %r' % (
+                len(bad), n, how, end, bad[0], seen.get(bad[0])))
+        out.nontrivial = True
+        out.features.add('crowd_of_awaiters')
+        return out
 
     # ------------------------------------------------------------------
     def run_case(self, case, tier='quick'):
+        if 'crowd' in case:
+            return self.crowd_case(case)
         out = Outcome()
         prog = case['prog']
         nact = 12
